@@ -472,6 +472,22 @@ fn debug_slow(spec: &str) {
 }
 
 pub fn run(tier: Tier) -> i32 {
+    if let Ok(spec) = std::env::var("C02_LOSSY") {
+        // debugging aid: C02_LOSSY=<n>,<total ms>: messages across a 2|n-2 partition are LOST for 3.2 s
+        let (n, total) = spec.split_once(',').unwrap();
+        let n: usize = n.parse().unwrap();
+        let sc = Scenario { stakes: vec![10; n], crashed: BTreeSet::new(), slow_out: vec![false; n], slow_in: vec![false; n], slow_ms: 1, prefix: "lossy-partition", stabilise_at_ms: 3200, horizon_windows: 4, reorder_ms: 0 };
+        match run_scenario(&sc, total.parse().unwrap(), 7) {
+            Ok(r) => {
+                println!("finalized {:?} alive {:?} panics {:?}", r.finalized, r.alive, r.panics);
+                for (t, f) in r.timeline {
+                    println!("  t={t} {f:?}");
+                }
+            }
+            Err(p) => println!("panic {p}"),
+        }
+        return 0;
+    }
     if let Ok(spec) = std::env::var("C02_SLOW_ALL") {
         debug_slow(&spec);
         return 0;
